@@ -4,7 +4,7 @@
 From Coq Require Import List ZArith Lia Bool Arith.
 Import ListNotations.
 Require Import C01.Sums C01.Batch C01.Tensor C01.OpExpr C01.Model C01.Covered.
-Require Import C01.ProofsBase C01.ProofsAlg C01.ProofsKron C01.ProofsStruct C01.ProofsMore C01.ProofsSize.
+Require Import C01.ProofsBase C01.ProofsAlg C01.ProofsKron C01.ProofsStruct C01.ProofsMore C01.ProofsPerm C01.ProofsRepeat C01.ProofsMul C01.ProofsSize.
 Open Scope Z_scope.
 
 (* f acts as D and D is symmetric: f acts as the transpose too *)
@@ -249,6 +249,46 @@ Proof.
     rewrite (sz_correct y (wfb_all_in _ y HW Hy)). reflexivity.
 Qed.
 
+(* ---- Hadamard products of root-form operands ------------------------------------------------------ *)
+
+Lemma simple_root_denote e : simple_root e = true ->
+  denote e = dmm (root_dense e) (dtr (root_dense e)) /\ coveredb e = true.
+Proof.
+  destruct e; try discriminate; simpl.
+  - destruct upper; [discriminate|]. auto.
+  - destruct e; try discriminate. auto.
+  - destruct e; try discriminate. auto.
+Qed.
+
+Lemma gram_fr T : dmm (fr T) (dtr (fr T)) == dmm T (dtr T).
+Proof.
+  destruct (BTeq_shape _ _ (fr_eq T)) as (e1 & e2 & e3).
+  eapply BTeq_trans; [apply dmm_eq_l; [change (bsh (dtr (fr T))) with (bsh (fr T)); apply bcompat_refl|apply fr_eq]|].
+  apply dmm_eq_r; [change (bsh (dtr (fr T))) with (bsh (fr T)); rewrite e1; apply bcompat_refl
+                  |change (nr (dtr (fr T))) with (nc (fr T)); exact e3|apply dtr_eq; apply fr_eq].
+Qed.
+
+Lemma acts_mul_case l r :
+  simple_root l = true -> acts (mm false r) (denote r) ->
+  bsh (denote l) = bsh (denote r) -> nr (denote l) = nr (denote r) -> nr (denote r) = nc (denote r) ->
+  acts (mul_mm (fr (root_dense l)) (mm false r) (bsh (denote r))) (dhad (denote l) (denote r)).
+Proof.
+  intros HS HA HB HN HSq. destruct (simple_root_denote l HS) as [HD _].
+  set (T := root_dense l) in *. destruct (BTeq_shape _ _ (fr_eq T)) as (e1 & e2 & e3).
+  assert (BT1 : bsh T = bsh (denote r)) by (rewrite <- HB, HD; simpl; rewrite bcast_refl; reflexivity).
+  assert (NT : nr T = nr (denote r)) by (rewrite <- HN, HD; reflexivity).
+  eapply acts_eq; [|apply (acts_mul (fr T) (denote r) (mm false r) HA); congruence].
+  rewrite HD. apply dhad_eq; [simpl; rewrite bcast_refl, BT1; apply bcompat_refl|simpl; congruence| |apply gram_fr|apply BTeq_refl].
+  simpl. congruence.
+Qed.
+
+Lemma gram_sym_mt (tf : bool) A B : dtr A == A -> dtr B == B -> bcompat (bsh A) (bsh B) = true -> nr B = nr A -> nc B = nc A ->
+  mt tf (dhad A B) == dhad A B.
+Proof.
+  intros HA HB HC HR HN. destruct tf; simpl; [|apply BTeq_refl].
+  eapply BTeq_trans; [apply dtr_dhad|]. apply dhad_eq; simpl; assumption.
+Qed.
+
 (* ---- the induction -------------------------------------------------------------------------------- *)
 
 
@@ -295,6 +335,19 @@ Proof.
   - (* Matmul *) ihs. cbn [mm denote]. destruct tf.
     + apply (acts_matmul_t (mm true e1) (mm true e2) (denote e1) (denote e2)); try assumption; useih.
     + apply (acts_comp (mm false e1) (mm false e2) (denote e1) (denote e2)); try assumption; useih.
+  - (* Mul *) destruct (simple_root_denote e1) as [D1 C1]; [assumption|]. destruct (simple_root_denote e2) as [D2 C2]; [assumption|].
+    pose proof (IHe1 ltac:(assumption) C1 false) as A1. pose proof (IHe2 ltac:(assumption) C2 false) as A2. simpl mt in A1, A2.
+    assert (Sq1 : nr (denote e1) = nc (denote e1)) by (rewrite D1; reflexivity).
+    assert (Sq2 : nr (denote e2) = nc (denote e2)) by (rewrite D2; reflexivity).
+    assert (Sy1 : dtr (denote e1) == denote e1) by (rewrite D1; apply dmm_AAt_sym).
+    assert (Sy2 : dtr (denote e2) == denote e2) by (rewrite D2; apply dmm_AAt_sym).
+    match goal with HE : bsh (denote e1) = bsh (denote e2) |- _ => pose proof HE as HBs end.
+    cbn [denote]. eapply acts_eq; [apply BTeq_sym; apply (gram_sym_mt tf); [exact Sy1|exact Sy2|rewrite HBs; apply bcompat_refl|congruence|congruence]|].
+    cbn [mm denote sz]. rewrite (sz_correct e1) by assumption. unfold shp, sz_b. cbn [fst].
+    destruct (root_cols e1 <? root_cols e2)%nat.
+    + eapply acts_eq; [apply dhad_comm; [rewrite HBs; apply bcompat_refl|congruence|congruence]|].
+      apply acts_mul_case; try assumption; congruence.
+    + rewrite HBs. apply acts_mul_case; try assumption.
   - (* ConstantMul *) ihs. cbn [mm denote].
     eapply acts_eq; [|apply (acts_dscale (mm tf e) (mt tf (denote e)) c); [useih|rewrite mt_shape; assumption]].
     destruct tf; simpl; [apply BTeq_sym; apply dtr_dscale|apply BTeq_refl].
@@ -326,6 +379,14 @@ Proof.
     unfold pos in *. repeat match goal with HH : (0 <? _)%nat = true |- _ => apply Nat.ltb_lt in HH end.
     eapply acts_eq; [|apply (acts_sumbatch (mm tf e) (mt tf (denote e)) k bs); [rewrite mt_shape; exact HS|assumption|useih]].
     destruct tf; simpl; [apply BTeq_sym; apply dtr_dsumbatch|apply BTeq_refl].
+  - (* BatchRepeat *) ihs. intros X HX. cbn [mm denote sz]. rewrite (sz_correct e) by assumption. unfold shp, sz_b, sz_m, sz_n. cbn [fst snd].
+    match goal with HSq : nr (denote e) = nc (denote e) |- _ => rewrite HSq end. rewrite Nat.eqb_refl.
+    assert (HA : acts (mm tf e) (mt tf (denote e))) by useih.
+    pose proof (acts_batchrepeat_square (mm tf e) (mt tf (denote e)) rep HA) as HL.
+    rewrite mt_shape in HL. specialize (HL ltac:(assumption) ltac:(apply Nat.leb_le; assumption)).
+    assert (HE : drepeat (mt tf (denote e)) rep == mt tf (drepeat (denote e) rep)).
+    { destruct tf; simpl; [apply BTeq_sym; apply dtr_drepeat|apply BTeq_refl]. }
+    apply (acts_eq _ _ _ HE HL X HX).
   - (* Cat *) destruct ops as [|x ops]; [discriminate|]. destruct ops as [|x2 ops]; [discriminate|].
     assert (HA : forall y, In y (x :: x2 :: ops) -> forall t, acts (mm t y) (mt t (denote y))).
     { intros y Hy t'. rewrite Forall_forall in H. apply (H y Hy); [eapply wfb_all_in; eauto|].
@@ -345,6 +406,7 @@ Proof.
   - (* Masked *) ihs. cbn [mm denote]. destruct tf; simpl mt.
     + eapply acts_eq; [apply BTeq_sym; apply dtr_dmask|]. apply (acts_masked (mm true e) (dtr (denote e)) cm rm); try assumption. useih.
     + apply (acts_masked (mm false e) (denote e) rm cm); try assumption. useih.
+  - (* Permutation *) cbn [mm denote]. destruct tf; simpl mt; [apply acts_perm_inv|apply acts_perm]; assumption.
   - (* TransposePermutation *) simpl. apply acts_sym_mt; [apply dtr_dtransperm|apply acts_transperm].
   - (* Kernel *) cbn [mm denote]. destruct tf; simpl mt; [|apply acts_dmm].
     eapply acts_eq; [apply BTeq_sym; apply dtr_dkernel; assumption|apply acts_dmm].
